@@ -1888,6 +1888,8 @@ struct Engine
             return x.v;
         else if constexpr (std::is_same_v<T, Asg> || std::is_same_v<T, Cpy>)
             return x.val;
+        else if constexpr (std::is_same_v<T, Amp>)
+            return x.v;
         else if constexpr (std::is_same_v<T, Str>)
             return static_cast<long>(x.size()) + (x.empty() ? 0 : x[0]);
         else if constexpr (std::is_same_v<T, Big32>)
@@ -2084,6 +2086,51 @@ struct Engine
                            return touch(typename Vec::const_reference{ce});
                        });
 #endif
+            if constexpr (LS::HAS_TRACKED)
+            {
+                // a copy whose k-th copy construction throws: whatever the copy does to clean up, it must not touch the
+                // (shared) source
+                std::size_t objects = 0;
+                for (auto& e : m[0].el) objects += LS::tracked_objects(e);
+                for (std::size_t k = 1; k <= objects && k <= 6; ++k)
+                {
+                    const unsigned throw_mark = L().op_serial + 1;  // fp_run advances the serial before running
+                    fp_run("copy-construct with a throwing copy constructor", shared, false,
+                           [&]
+                           {
+                               R().copies_seen = 0;
+                               R().copy_throw_at = k;
+                               long r = 0;
+                               try
+                               {
+                                   Vec d(cs);
+                                   r = static_cast<long>(d.size());
+                               }
+                               catch (const CopyFault&)
+                               {
+                                   r = -1;
+                               }
+                               R().copy_throw_at = 0;
+                               return r;
+                           });
+                    // the abandoned copy does not destroy what it had constructed before the exception and does not
+                    // return its address table (the library makes no promise for throwing value types); those objects
+                    // and blocks belong to the private copy and are not the subject here
+                    {
+                        HarnessScope hs;
+                        for (auto& kv : L().blocks)
+                            if (kv.second.live && kv.second.born_op >= throw_mark) kv.second.live = false;
+                        for (auto it = R().live.begin(); it != R().live.end();)
+                        {
+                            const Block* b = find_block(it->first);
+                            if (!b || !b->live)
+                                it = R().live.erase(it);
+                            else
+                                ++it;
+                        }
+                    }
+                }
+            }
 #if HAVE_ELEM
             if (n > 0)
             {
@@ -2399,6 +2446,7 @@ struct Engine
             add(cap + 1, bu);
             add(cap + 1, bu + 1);
             add(cap + 2, bu + 1);
+            add(cap + 1, used_u);  // more elements, but only the payload already stored: the block may not have to grow
         }
         else
         {
